@@ -106,6 +106,21 @@ class NPProxy:
     def zeros(self, shape, dtype=float, **kw):
         return real_np.zeros(shape, dtype=self._dt(dtype), **kw)
 
+    def empty(self, shape, dtype=float, **kw):
+        # a buffer that the code fills afterwards (preallocate-and-assign): with a floating dtype it must be able to hold symbolic
+        # values, so it is an object array of 0.0 while an engine is active; an INTEGER buffer stays a real integer array - assigning a
+        # symbolic real into it goes through Sym.__int__ (truncation toward zero as a solver-driven case split), which is what numpy does
+        dt = real_np.dtype(self._dt(dtype))
+        if core.ENGINE is not None and dt.kind == 'f':
+            a = real_np.empty(shape, dtype=object)
+            a.fill(0.0)
+            return a
+        return real_np.empty(shape, dtype=dt, **kw)
+
+    def empty_like(self, a, dtype=None, **kw):
+        return self.empty(real_np.shape(a), dtype=(real_np.asarray(a).dtype if dtype is None else dtype)) if real_np.asarray(a).dtype != object or dtype is not None \
+            else real_np.empty_like(a)
+
     def delete(self, arr, obj, axis=None):
         if has_sym(obj):
             obj = [int(i) for i in obj] if isinstance(obj, (list, tuple, real_np.ndarray)) else int(obj)
